@@ -5,6 +5,7 @@ CONSTANTS
   TypesC <- TypesC4
   Depth = "extra"
   FieldSet = "full"
+  Entries <- EntriesUntrusted
   MaxOps = 2
   Heavy <- HeavyMid
   HeavyAfter <- HeavyLiteSet
